@@ -379,13 +379,14 @@ func c01CheckMisc(c c01MiscCase) engine.Result {
 				if packet.Equal(&base, &other) || packet.Equal(&other, &base) || base.Equals(&other) || other.Equals(&base) {
 					res.Failf("Equal|single-bit", "packets differing in bit %d compare equal", bit)
 				}
-				if bit%97 == 0 {
-					for bit2 := bit + 1; bit2 < 188*8; bit2 += 211 {
-						o2 := other
-						o2[bit2/8] ^= 0x80 >> uint(bit2%8)
-						if packet.Equal(&base, &o2) || o2.Equals(&base) {
-							res.Failf("Equal|two-bit", "packets differing in bits %d,%d compare equal", bit, bit2)
-						}
+				// every pair of differing bits (differences that could cancel in a word-wise comparison)
+				for bit2 := bit + 1; bit2 < 188*8; bit2++ {
+					o2 := other
+					o2[bit2/8] ^= 0x80 >> uint(bit2%8)
+					res.Evals++
+					if packet.Equal(&base, &o2) || o2.Equals(&base) {
+						res.Failf("Equal|two-bit", "packets differing in bits %d,%d compare equal", bit, bit2)
+						break
 					}
 				}
 			}
@@ -459,7 +460,7 @@ func init() {
 			},
 			&engine.Enum[c01MiscCase]{
 				Name: "construct-validate-equal",
-				Rule: "FromBytes on every slice length 0..400; FromBytes/CheckErrors on all 256 sync bytes x all 256 byte-3 values x 3 byte-1 values; Equal/Equals on identical, nil and all 1504 single-bit-different packets for each of the 7 fills; CopyPackets on 0..4 packets",
+				Rule: "FromBytes on every slice length 0..400; FromBytes/CheckErrors on all 256 sync bytes x all 256 byte-3 values x 3 byte-1 values; Equal/Equals on identical, nil, all 1504 single-bit-different and all 1.13M two-bit-different packets for each of the 7 fills; CopyPackets on 0..4 packets",
 				Gen: func(r *engine.Run, emit func(c01MiscCase)) {
 					for n := 0; n <= 400; n++ {
 						emit(c01MiscCase{"FromBytes-length", n, r.Seed})
